@@ -19,6 +19,12 @@ import TinkVerif.Props.GlueTie.Keyset
 import TinkVerif.Props.GlueTie.ManagerId
 import TinkVerif.Props.GlueTie.HpkeCtx
 import TinkVerif.Props.GlueTie.GcmSiv
+import TinkVerif.Props.GlueTie.FactoryCommon
+import TinkVerif.Props.GlueTie.FactoryAead
+import TinkVerif.Props.GlueTie.FactoryDaead
+import TinkVerif.Props.GlueTie.FactoryMac
+import TinkVerif.Props.GlueTie.FactoryVerify
+import TinkVerif.Props.GlueTie.FactoryHybrid
 /-
   GlueTie: the small byte-level glue functions of tink-go (output prefixes, segment nonces, length blocks,
   counter / tag masks, AIV, CMAC doubling and padding, HPKE labels) are REGENERATED from /repo's current source
@@ -55,6 +61,14 @@ import TinkVerif.Props.GlueTie.GcmSiv
     Props.GlueTie.HpkeCtx           Gen/GlueHpke     (C06)                    Model/Hpke `keySchedule`, `computeNonce` (whole createContext / computeNonce)
     Props.GlueTie.GcmSiv            Gen/GlueGcmSiv   (C01 C02)                Model/Ctr `xorLE32`, Model/Aead `GcmSiv.deriveKeys/tag/decrypt` (whole aesCTR, computeTag, deriveKeys, computePolyval, Decrypt)
     Props.GlueTie.Prf               Gen/GluePrf      (C15)                    prf/subtle AESCMACPRF truncation and guards
+
+  Decision / glue logic (round 4; the iterator contract, what is abstract and the helper lemmas are in Props.GlueTie.FactoryCommon;
+  primitives are abstract accept / transform functions, monitoring loggers are dropped, prefixmap is an abstract iterator):
+    Props.GlueTie.FactoryAead       Gen/GlueFactoryAead   (C01 C02 C05)       Model/Wrap `candidates`, `accept` (whole wrappedAead.Decrypt / Encrypt)
+    Props.GlueTie.FactoryDaead      Gen/GlueFactoryDaead  (C05 C08)           Model/Wrap `candidates`, `accept` (whole wrappedDAEAD.Decrypt/EncryptDeterministically)
+    Props.GlueTie.FactoryMac        Gen/GlueFactoryMac    (C04 C05)           Model/Wrap `macAccept` (whole wrappedMAC.VerifyMAC / tryVerifyMAC / ComputeMAC)
+    Props.GlueTie.FactoryVerify     Gen/GlueFactoryVerify (C03 C05)           Model/Wrap `accept` (whole wrappedVerifier.Verify)
+    Props.GlueTie.FactoryHybrid     Gen/GlueFactoryHybrid (C05 C06)           Model/Wrap `candidates`, `accept` (whole wrappedHybridDecrypt.Decrypt)
 
   This file only collects them (and repeats the axiom audit for every tie theorem).
 -/
